@@ -99,6 +99,10 @@ def good_family(deep=False):
                 ('O', False, (('t', ('T', True, t[2])),)), ('O', False, (('rows', ('A', False, t)),))]
     for w in (33, 65, 257):
         out.append(('O', False, tuple(("m%03d" % i, kinds[i % 3]) for i in range(w))))
+        for pos in (0, w // 2, w - 1):           # the same record with ONE member of another type: must get another name
+            out.append(('O', False, tuple(("m%03d" % i, kinds[(i + (i == pos)) % 3]) for i in range(w))))
+            out.append(('O', False, (('left', ('O', False, tuple(("m%03d" % i, kinds[i % 3]) for i in range(w)))),
+                                     ('right', ('O', False, tuple(("m%03d" % i, kinds[(i + (i == pos)) % 3]) for i in range(w)))))))
         out.append(('O', False, (('wide', ('O', False, tuple(("m%03d" % i, (kinds[i % 3][0], i % 2 == 1)) for i in range(w)))), ('n', Nu))))
     for L in (31, 32, 33, 64, 255, 1000):
         out.append(('O', False, (('k' * L, Nu), ('id', S))))
